@@ -638,6 +638,9 @@ def r05_9(ctx):
             if isinstance(p, ast.Attribute) and p.value is n and p.attr not in ("acquire", "release", "_waiters", "_value", "__aenter__", "__aexit__") \
                     and isinstance(p.ctx, ast.Load):
                 parent_ok = True  # a read-only query (locked() ...)
+            if isinstance(p, ast.Call) and isinstance(p.func, ast.Attribute) and p.func.attr == "enter_async_context" and any(a is n for a in p.args):
+                # entered through a contextlib.AsyncExitStack: the same acquire / release-on-every-exit pairing as `async with`
+                parent_ok = f.cls is not None and f.cls.name == "AshProtocol"
         ctx.require(parent_ok, f"semaphore-use:{f.short}", f"transmit-window semaphore used in {f.short} other than as "
                     f"`async with` / locked(): line {n.lineno}", func=f, node=n)
 
